@@ -870,9 +870,11 @@ async fn run_behaviour(net: &mut Net, case: &Value, idx: usize, seed: u64, out: 
     }
     h ^= (req[0] as u64) << 1 | (req[1] as u64) | (rep as u64) << 8;
     let mut rng = Rng(h);
+    // (the draw is always made, so that a recorded case replays with the same later choices)
+    let drawn = PROFILES[rng.below(3) as usize];
     let profile = match case.get("profile").and_then(|p| p.as_u64()) {
         Some(p) => PROFILES[p as usize % 3],
-        None => PROFILES[rng.below(3) as usize],
+        None => drawn,
     };
     let kseed = rng.next();
     let nonce = idx as u16;
